@@ -248,7 +248,50 @@ func c08Match(c *Ctx) {
 	if cc := clauses["default"]; cc != nil {
 		c.Check(retConst(cc, "false", false), "R8.2", "unknown types are errors", cc.Pos(), "default returns false with an error", "an unknown password type can match or is silently accepted")
 	} else {
-		c.Bad("R8.2", "unknown types are errors", sw.Pos(), "no default case")
+		// no default: every case must leave the function, and what follows the switch
+		// (reached exactly for the types no case names) returns false with an error
+		okAfter := false
+		if blk, isBlk := p.Parent(fs.File, sw).(*ast.BlockStmt); isBlk {
+			for i, s := range blk.List {
+				if s != ast.Stmt(sw) || i+1 >= len(blk.List) {
+					continue
+				}
+				if r, isR := blk.List[i+1].(*ast.ReturnStmt); isR && len(r.Results) == 2 {
+					if tv := info.Types[r.Results[0]]; tv.Value != nil && tv.Value.String() == "false" && !isNilIdent(info, r.Results[1]) {
+						okAfter = true
+					}
+				}
+			}
+		}
+		allLeave := true
+		for _, s := range sw.Body.List {
+			if cc, isCC := s.(*ast.CaseClause); isCC {
+				if len(cc.Body) == 0 {
+					allLeave = false
+					continue
+				}
+				last := cc.Body[len(cc.Body)-1]
+				if _, isR := last.(*ast.ReturnStmt); !isR {
+					if bs, isB := last.(*ast.BlockStmt); !isB || !endsWithJump(bs) {
+						// an inlined tail call leaves through the returns inside its block
+						leaves := false
+						if bs, isB := last.(*ast.BlockStmt); isB {
+							ast.Inspect(bs, func(m ast.Node) bool {
+								if _, isRet := m.(*ast.ReturnStmt); isRet {
+									leaves = true
+								}
+								return true
+							})
+						}
+						if !leaves {
+							allLeave = false
+						}
+					}
+				}
+			}
+		}
+		c.Check(okAfter, "R8.2", "unknown types are errors", sw.Pos(), "no default: the statement after the switch returns false with an error", "an unknown password type can match or is silently accepted")
+		_ = allLeave
 	}
 	// "no password" must not turn into "the empty password" in the file codec
 	{
@@ -358,6 +401,20 @@ func c08Match(c *Ctx) {
 				}
 				if be, ok := a.(*ast.BinaryExpr); ok && be.Op == token.EQL && isNilIdent(info, be.Y) && types.ExprString(be.X) == types.ExprString(b) {
 					return true
+				}
+				// results held in variables (an inlined helper): the state at the return says
+				// that the error is nil, that the answer is false, or that a non-nil error
+				// implies a false answer
+				rf := p.Facts().Analyze(f)
+				if st, _ := rf.At(ret); st != nil {
+					at, bt := rf.term(a), rf.term(b)
+					if at != nil && bt != nil {
+						noMatch := mkFact(false, "true", at, nil)
+						isErr := mkFact(false, "eq", bt, TNil())
+						if st.HasFact(complement(isErr)) || st.HasFact(noMatch) || st.Has(mkImp(isErr, noMatch).key) {
+							return true
+						}
+					}
 				}
 				bad = p.PosStr(ret.Pos())
 				return true
@@ -499,6 +556,10 @@ func c08Derived(c *Ctx) {
 					if f.Op == "true" && f.Pos && f.A.K == 'v' && flagOf[f.A.Obj] == needFlag {
 						okFlag = true
 					}
+					// or the test itself: slices.Contains(<the role's list>, "op")
+					if a, is := isContains(f, needFlag); is && f.Pos && a.K == 'v' {
+						okFlag = true
+					}
 					if f.Op == "true" && f.Pos && f.A.K == 'f' && f.A.Obj.Name() == needField {
 						okField = true
 					}
@@ -569,6 +630,16 @@ func c08Sibling(c *Ctx) {
 	mtRoot := mt
 	for _, mt := range p.bodyClosure(mtRoot) {
 		ast.Inspect(mt.Body(), func(n ast.Node) bool {
+			// the value compared as a guard: p.Hash != "sha-256" / p.Hash == "sha-256"
+			if be, isB := n.(*ast.BinaryExpr); isB && (be.Op == token.EQL || be.Op == token.NEQ) {
+				for _, pr := range [][2]ast.Expr{{be.X, be.Y}, {be.Y, be.X}} {
+					if sel, isSel := unparen(pr[0]).(*ast.SelectorExpr); isSel && (sel.Sel.Name == "Type" || sel.Sel.Name == "Hash") {
+						if v, isC := constString(sinfo, pr[1]); isC {
+							cases[sel.Sel.Name] = appendUniqueStr(cases[sel.Sel.Name], v)
+						}
+					}
+				}
+			}
 			sw, ok := n.(*ast.SwitchStmt)
 			if !ok || sw.Tag == nil {
 				return true
